@@ -1543,7 +1543,11 @@ impl PeerConnection {
 
         {
             let current_role = *self.inner.dtls_role.borrow();
-            if current_role.is_none() {
+            // The role is fixed once the DTLS transport exists (a role change would need a new
+            // association). Until then a later description may still change it: a re-offer in
+            // which the offerer takes the role we derived earlier must not be answered with
+            // that same role.
+            if current_role.is_none() || self.inner.dtls_transport.lock().is_none() {
                 let mut new_role = None;
                 if self.config().transport_mode == TransportMode::Rtp
                     || self.config().transport_mode == TransportMode::Srtp
